@@ -5,13 +5,24 @@ MGR_TUS = BASE + ['src/client/QXmppIqHandling.cpp', 'src/client/QXmppClientExten
                   'src/base/QXmppDiscoveryIq.cpp', 'src/base/QXmppDataForm.cpp']
 CLI_TUS = BASE + ['src/client/QXmppClient.cpp', 'src/client/QXmppOutgoingClient.cpp', 'src/client/QXmppClientExtension.cpp', 'src/base/QXmppStreamManagement.cpp', 'src/base/QXmppStreamFeatures.cpp']
 MODELS = ['qt_core.c', 'qt_list.c', 'qt_dom.c', 'qt_object.c', 'c08_models.c']
+BOUND = {
+    'iqh_check': 'checkIsIqRequest on <iq/> (and <message/>: noiq) x 6 type keywords x 8 (requests) / 3 (others) payload shapes; id <= 2, from <= 3 arbitrary units',
+    'iqh_reply': 'sendIqReply for handler IQ type in {error, get, set, result} x e2ee metadata absent/present; request id <= 2, from <= 3, stale id/to of the handler IQ <= 1 arbitrary units',
+    'iqh_handle': 'handleIqRequests<QXmppVersionIq, QXmppEntityTimeIq> with a handler object (variant<Iq,Error> for one payload, plain Iq for the other); handler outcome result / stanza error / error-typed iq; types x shapes as above',
+    'mgr': 'REAL manager handleStanza on one IQ: requests get/set x 8 payload shapes, responses/invalid types {result, error, empty, garbage} x 3 shapes; id <= 2, from <= 3, own bare JID 1..2 arbitrary units',
+    'cli_inject': 'QXmppClient::injectIq, chain of 0 / 2 / 1 mock extensions with symbolic verdicts (both overloads), payload none / foreign / version; requests get/set, others: 4 type classes on the 2-extension chain',
+    'cli_stream': 'QXmppOutgoingClient::handleElement -> (signal) QXmppClient::_q_elementReceived -> chain -> QXmppOutgoingClient::handleStanza; chains and payloads as for inject; TLS mode / encryption arbitrary within "session established"',
+    'cli_fallback': 'QXmppOutgoingClient::handleStanza alone: get/set x {no child + from present, foreign child + from absent}',
+    'kf': 'demonstration of a known finding: exactly the excluded input class',
+}
 def I(name, **kw):
-    d = dict(name=name, entry='h_' + name, unwind=8, timeout_s=300, mem_gb=6, object_bits=12, bound=''); d.update(kw); return d
+    b = [v for k, v in BOUND.items() if name.startswith(k)]
+    d = dict(name=name, entry='h_' + name, unwind=8, timeout_s=300, mem_gb=6, object_bits=12, bound=b[0] if b else ''); d.update(kw); return d
 SPEC = dict(
     property='C08',
     groups=[
         dict(name='iqh', harness='h_iqh.cpp', tus=IQH_TUS, models=MODELS, shadow_task=True,
-             instances=[I('iqh_' + n) for n in ('check_req', 'check_resp', 'check_noiq', 'reply', 'handle_result', 'handle_error', 'handle_erroriq', 'handle_resp')] +
+             instances=[I('iqh_' + n) for n in ('check_req', 'check_resp', 'check_noiq', 'reply', 'handle_result', 'handle_error', 'handle_resp')] + [I('iqh_handle_erroriq', tiers=('thorough',))] +
                        [I('mgr_%s_%s' % (m, k)) for m in ('version', 'time') for k in ('req', 'resp')]),
         dict(name='mgr', harness='h_mgr.cpp', tus=MGR_TUS, models=MODELS + ['c08_mgr.c'], shadow_task=True,
              instances=[I('mgr_%s_%s' % (m, k)) for m in ('disco', 'vcard', 'roster') for k in ('req', 'resp')]),
@@ -20,7 +31,7 @@ SPEC = dict(
              instances=[I('kf_vcard_request', known_finding='vcard_request_swallowed'), I('kf_roster_get', known_finding='roster_get_swallowed'),
                         I('kf_roster_ack_to', known_finding='roster_ack_to_missing')]),
         dict(name='client', harness='h_client.cpp', tus=CLI_TUS, models=MODELS + ['c08_client.c'], shadow_task=True, loop_bounds={r'^_ZNSt6ranges14__copy_or_move': 110},
-             instances=[I('cli_' + n) for n in ('inject_req', 'inject_resp', 'inject_e2ee_req', 'inject_e2ee_resp', 'inject_noiq', 'stream_req', 'stream_resp', 'fallback_req')]),
+             instances=[I('cli_' + n) for n in ('inject_req', 'inject_resp', 'inject_e2ee_req', 'inject_noiq', 'stream_req', 'stream_resp', 'fallback_req')] + [I('cli_inject_e2ee_resp', tiers=('thorough',))]),
     ],
     bounds=[
         'one incoming element per run; its STRUCTURE is case-split inside each instance (one switch branch per combination, all decided by the solver in one query): IQ type keyword in {get, set, result, error, empty (= absent), garbage = 1..6 arbitrary UTF-16 units spelling none of the four}; payload shapes per harness (<= 8) out of: no child, foreign <ping xmlns=urn:xmpp:ping/>, the payloads of the five managers (query@jabber:iq:version, time@urn:xmpp:time, query@disco#info, query@disco#items, vCard@vcard-temp, query@jabber:iq:roster), <query/> without namespace, right namespace under a wrong tag, foreign element FOLLOWED by the payload (2 children)',
